@@ -608,7 +608,8 @@ func (p *BinaryProtocol) ReadMapBegin() (kType, vType Type, size int, err error)
 		err = e
 		return
 	}
-	if size32 < 0 {
+	if size32 < 0 || int(size32) > len(p.Buf)-p.Read {
+		// every element occupies at least one byte of the remaining input
 		err = errInvalidDataSize
 		return
 	}
@@ -639,7 +640,8 @@ func (p *BinaryProtocol) ReadListBegin() (elemType Type, size int, err error) {
 		err = e
 		return
 	}
-	if size32 < 0 {
+	if size32 < 0 || int(size32) > len(p.Buf)-p.Read {
+		// every element occupies at least one byte of the remaining input
 		err = errInvalidDataSize
 		return
 	}
@@ -671,7 +673,8 @@ func (p *BinaryProtocol) ReadSetBegin() (elemType Type, size int, err error) {
 		err = e
 		return
 	}
-	if size32 < 0 {
+	if size32 < 0 || int(size32) > len(p.Buf)-p.Read {
+		// every element occupies at least one byte of the remaining input
 		err = errInvalidDataSize
 		return
 	}
